@@ -7,6 +7,8 @@ BUILDS = cc.BUILDS
 CASE_TIMEOUT = cc.CASE_TIMEOUT
 LEAN_MODULES = ['AsynqModel.Theorems.C02', 'AsynqModel.Theorems.C03b', 'AsynqModel.Theorems.SpecC02']
 THEOREMS = ["AsynqModel.Core." + n for n in ['C02_first_wins', 'C02_unwrap_ok_iff', 'C02_first_failure_spec', 'C01_shape', 'C02_unwrap_congr', 'C02_extract_eq_leaves', 'C02_received_is_unwrap', 'C02_received_trace', 'C02_sync_returns_target', 'C02_raising_is_guard', 'C02_received_error_source', 'C02_error_source', 'C02_unaffected', 'C02_unaffected_contra', 'C02_error_chain', 'C02_caught_chain', 'C02_depends_on_origin', 'C02_unaffected_transitive', 'Spec_C02_accepts', 'Spec_C02_accepts_delivery', 'Spec_C02_only_ret', 'Spec_C02_no_bad', 'Spec_C02_watch_agrees']]
+LEAN_MODULES = LEAN_MODULES + ['AsynqModel.Theorems.AuditFixes']
+THEOREMS = THEOREMS + ["AsynqModel.Core." + n for n in ['C02_error_chain_strict', 'C02_depends_on_origin_strict', 'C02_unaffected_transitive_strict', 'C02_typeerr_source']]
 MIX = [('yield_err',4),('full',3),('sync',1)]
 RULE = ("grammar-generated task programs (profiles %s; trees and DAGs of tasks, 1-3 batch kinds with priority overrides "
         "and raising flushes, nested yield structures, errors, try/except, synchronous re-entry, contexts) interpreted on "
